@@ -235,6 +235,18 @@ func c16Programs(tier string) []*Spec {
 			sp.Clients[0] = []Op{{K: "ewma", B: 0, N: 1}, {K: "ewma", B: 0, N: 1}}
 		})
 	}
+	// rows so narrow that the decorator in front of a width-synchronised one uses the whole width, on every bar: the
+	// synchronised decorators behind it are still part of their column's exchange in every cycle
+	for _, rf := range []string{"manual", "auto"} {
+		sp := &Spec{Name: "c16-narrow-rows-sync-behind-wide", Refresh: rf, Q: -1, Notifier: true, Width: 10}
+		sp.Bars = []BarSpec{{Total: 2, Pre: []DecorSpec{{Widths: []int{13}}, syncD(3)}}, {Total: 2, Pre: []DecorSpec{{Widths: []int{12}}, syncD(2)}}}
+		sp.Main = []Op{{K: "add", B: 0}, {K: "add", B: 1}}
+		sp.Clients = [][]Op{completeOps(0, 2), completeOps(1, 2)}
+		if rf == "manual" {
+			sp.Clients = append(sp.Clients, []Op{{K: "refresh"}, {K: "refresh"}, {K: "refresh"}})
+		}
+		out = append(out, sp)
+	}
 	// every bar has left, the container keeps refreshing for a while with nothing in it, then Wait
 	{
 		sp := &Spec{Name: "c16-idle-empty", Refresh: "manual", Q: -1, Notifier: true}
